@@ -213,6 +213,18 @@ def array_ops(mon, top, path, kind, rng, other=None):
     whole(None, "= None")
     whole("a" * n, "= str")
     whole(5, "= 5")
+    if kind[0] != "bytearray":
+        # bytes-like objects are sequences of ints 0..255
+        whole(bytes([1] * n), "= bytes of ones")
+        whole(bytearray([127] * n), "= bytearray of 127s")
+        for i in (0, n - 1):
+            b = [5] * n
+            b[i] = 200
+            whole(bytes(b), f"= bytes with 200 at index {i}")
+            b[i] = 128
+            whole(bytearray(b), f"= bytearray with 128 at index {i}")
+        whole(bytes([255] * n), "= bytes of 255s")
+        whole(bytes(n + 1), "= bytes too long")
     if kind[0] == "bytearray":
         whole(bytes(base), "= bytes")
         whole(bytearray(base), "= bytearray")
@@ -261,6 +273,11 @@ def array_ops(mon, top, path, kind, rng, other=None):
                     verdict = "either"
                 rb = (lambda k=k: list(arr()[k])) if kind[0] != "bytearray" else (lambda k=k: list(bytes(arr()[k])))
                 mon.attempt(top, path, kind, lambda: arr().__setitem__(k, seq), rb, verdict, canon, f"{key_repr(k)} = {desc} list", region, FD.seq_equal)
+            if m >= 1 and kind[0] != "bytearray":
+                for bv in (bytes([200] * m), bytearray([7] * m)):
+                    verdict, canon = FD.classify_sequence(kind, bv, m)
+                    rb = (lambda k=k: list(arr()[k]))
+                    mon.attempt(top, path, kind, lambda: arr().__setitem__(k, bv), rb, verdict, canon, f"{key_repr(k)} = {type(bv).__name__} {list(bv)[:3]}", region, FD.seq_equal)
             if m >= 1:
                 for bad in bads[:3]:
                     seq = [good(j) for j in range(m)]
